@@ -18,8 +18,8 @@ from sim.ref import jsonpatch_ref as jp
 ID = "C17"
 LEVEL = "fault_enumeration"
 TIERS = {
-    "quick": {"segments": 1200, "wall": 100, "min_budget": 60},
-    "thorough": {"segments": 40000, "wall": 1500, "min_budget": 300},
+    "quick": {"segments": 4000, "wall": 100, "min_budget": 60},
+    "thorough": {"segments": 200000, "wall": 1500, "min_budget": 300},
 }
 SEGMENT_TIMEOUT = 300
 SAMPLE_MAXOPS = 10**9
